@@ -11,11 +11,12 @@ import (
 )
 
 type OblResult struct {
-	O   *Obligation
-	R   SolveResult
-	Fn  *FuncResult
-	OK  bool
-	Qry string
+	O    *Obligation
+	R    SolveResult
+	Fn   *FuncResult
+	OK   bool
+	Qry  string
+	Skip bool // an open vacuity guard: reported, not counted
 }
 
 func usage() {
@@ -34,6 +35,8 @@ func main() {
 		cmdCheck(os.Args[2:])
 	case "selftest":
 		cmdSelftest(os.Args[2:])
+	case "anchors":
+		cmdAnchors(os.Args[2:])
 	default:
 		usage()
 	}
